@@ -170,6 +170,9 @@ def _verify(E, reg, qualname, rep, ghosts):
         o = Obligation(f"{qualname}/vacuity[requires-satisfiable]", qualname, "vacuity", [], z3.BoolVal(False))
         o.status, o.reason = "refuted", "the precondition (with the assumed axioms) is contradictory"
         E.obls.append(o)
+    if any("memoisation" in d for d in dropped):
+        from .calls import memo_obligation
+        memo_obligation(E, fdef, qualname, st)
     st.old = None
     entry = st.copy()
     st.old = entry
@@ -423,13 +426,22 @@ def _discharge_all(E, rep):
                 o.reason = ("discharged by the solver, but the REAL function violates the clause on a concrete input: the model "
                             "(value semantics / assumed contracts) does not capture this behaviour")
                 o.replay = {"reproduced": True, "detail": w["observed"], "inputs": w["inputs"]}
-    # a counter-model obtained only after dropping the list-canonical-form axioms is a CANDIDATE: it counts as a refutation
-    # only when a failing input was reproduced on the real function; otherwise the obligation stays undecided
+    # Candidate counter-models (found only after weakening the quantified axioms, or by E-matching saturation) of a function
+    # that CAN be executed natively: when the real function satisfied the clause on every one of >= 50 generated inputs the
+    # candidate is most likely an artefact of the model (e.g. aliasing the value semantics cannot follow) - the obligation is
+    # left undecided and is not escalated.  Functions with effects cannot be executed; their candidates stand, without an input.
+    evals = getattr(E, "search_evals", {})
     for o in E.obls:
         if o.status == "refuted" and getattr(o, "modulo_wf", False) and not (getattr(o, "replay", None) or {}).get("reproduced"):
-            # kept as a refutation without a failing input: the counter-model satisfies every hypothesis except the quantified
-            # canonical-form axioms, whose observable consequences (list extensionality) were asserted quantifier-free
-            o.reason = (o.reason or "") + " [no replay on the real function: effects / opaque inputs]"
+            n = evals.get(o.id, 0)
+            if n >= 50:
+                o.status = "undecided"
+                o.reason = (f"not reproduced: the solver's candidate counter-model could not be replayed and the real function satisfied the clause "
+                            f"on all {n} generated inputs; left undecided (solver: {o.reason})")
+            else:
+                o.reason = (o.reason or "") + " [no replay on the real function: effects / opaque inputs]"
+        elif o.status == "undecided" and evals.get(o.id, 0) >= 50 and str(o.reason).startswith("unknown"):
+            o.reason = f"not refuted by {evals[o.id]} native executions of the real function; solver: {o.reason}"
     for o in E.obls:
         rep.obligations.append({
             "id": o.id, "func": o.func, "kind": o.kind, "label": o.label, "status": o.status, "backend": o.backend,
